@@ -7,7 +7,7 @@ from ..common import ALL_ALGOS, DEFAULT_ALGOS, new_scratch, rmtree, split_seeds,
 from ..gen import make_content, op_shape, spelling
 from ..model import SPELLINGS, canon_algo
 from ..runner import ShardResult
-from ..seqengine import World, finding_signature, seq_witness, seq_replay
+from ..seqengine import World, finding_signature, seq_witness, seq_replay, open_store
 
 ID = "C02"
 LEVEL = "exploration"
@@ -18,7 +18,10 @@ RULE = ("histories of 20-60 calls on ONE long-lived FileHashStore instance: stor
         "plain store whose key set must be exactly the five defaults. Oracle: key set == defaults + canonical(add) "
         "+ canonical(checksum_algorithm) of THAT call; every value == hashlib digest. distinct_nontrivial = "
         "distinct (canonical add, canonical checksum algo, spelling forms, content, 'a non-default algorithm was "
-        "requested earlier on this instance') tuples.")
+        "requested earlier on this instance') tuples. Overlap part: 7 scenarios of 2-3 calls on different pids with "
+        "different additional / checksum algorithms (and get_hex_digest) on ONE instance under scheduler-controlled "
+        "statement-level random / PCT schedules, plus 6 OS-scheduled threads storing their own pids with their own "
+        "algorithms; each result is judged from its own call's arguments and hashlib alone.")
 ASSUMPTIONS = ["accepted spellings are those of hsverif/model.py SPELLINGS (forms shown in README/tests)"]
 
 SPEC = {"e": {"cseed": 1, "size": 0}, "one": {"cseed": 2, "size": 1}, "b1": {"cseed": 3, "size": 8193},
@@ -39,11 +42,19 @@ def relevant(f):
 def shards(tier, seed):
     n = 16
     per = 6 if tier == "quick" else 120
-    return [(s, per, i) for i, s in enumerate(split_seeds(seed * 1000 + 2, n))] + [("suite", 0, -1)]
+    out = [(s, per, i) for i, s in enumerate(split_seeds(seed * 1000 + 2, n))] + [("suite", 0, -1)]
+    # overlapping calls on ONE instance: 'depends only on the call that asked' also when another call is in flight
+    nline = 12 if tier == "quick" else 120
+    for i, s in enumerate(split_seeds(seed * 1000 + 22, len(CONC_SCENARIOS))):
+        out.append(("conc", nline, i, s))
+    for i, s in enumerate(split_seeds(seed * 1000 + 23, 2 if tier == "quick" else 8)):
+        out.append(("free", 25 if tier == "quick" else 120, i, s))
+    return out
 
 
 def min_required(tier):
-    return {"evaluations": 1500, "digest_maps_checked": 800, "hexdigests_checked": 300, "plain_after_nondefault": 40}
+    return {"evaluations": 1500, "digest_maps_checked": 800, "hexdigests_checked": 300, "plain_after_nondefault": 40,
+            "overlapping_results_checked": 100, "overlapping_schedules": 40, "free_running_results_checked": 200}
 
 
 def history(rng, w, res, algo_cycle):
@@ -122,11 +133,183 @@ def history(rng, w, res, algo_cycle):
     return ops
 
 
-def run_shard(sub_seed, n, idx):
+def _cst(pid, c, **kw):
+    d = {"op": "store", "pid": pid, "content": c, "kind": "path"}
+    d.update(kw)
+    return d
+
+
+def _hx(pid, algo):
+    return {"op": "hexdigest", "pid": pid, "algo": algo}
+
+
+CSPEC = {"X": {"cseed": 201, "size": 9000}, "Y": {"cseed": 202, "size": 70}, "Z": {"cseed": 203, "size": 20000}}
+CONC_SCENARIOS = [
+    ("empty", [], [_cst("p1", "X", add="sha3_256"), _cst("p2", "Y", add="blake2b")]),
+    ("empty", [], [_cst("p1", "X", calgo="sha224", checksum="ok"), _cst("p2", "Y")]),
+    ("empty", [], [_cst("p1", "X", add="sha3_384", calgo="blake2s", checksum="ok"), _cst("p2", "X", add="sha224")]),
+    ("empty", [], [_cst("p1", "Z", add="blake2s"), _cst("p2", "Y", add="sha3_512"), _cst("p3", "X")]),
+    ("p2->Y", [_cst("p2", "Y")], [_cst("p1", "X", add="sha3_224"), _hx("p2", "blake2b")]),
+    ("p1->X,p2->Y", [_cst("p1", "X"), _cst("p2", "Y")], [_hx("p1", "sha3_256"), _hx("p2", "sha224")]),
+    ("p1->X,p2->Y", [_cst("p1", "X"), _cst("p2", "Y")], [_hx("p1", "blake2s"), _hx("p2", "blake2s"), _cst("p3", "Z", add="sha3_512")]),
+]
+
+
+def check_overlapping_result(op, out, contents, store_halgo, res, counter):
+    """Oracle for one call's result, from the call's own arguments and hashlib only. Returns a problem dict or None."""
+    import hashlib
+    if not out.ok:
+        return {"symptom": "call-failed-although-no-other-call-touches-its-pid", "got": out.brief()}
+    data = contents[op["content"]] if op["op"] == "store" else None
+    res.count(counter)
+    if op["op"] == "hexdigest":
+        return None
+    v = out.value
+    want_keys = set(DEFAULT_ALGOS) | {canon_algo(op[x]) for x in ("add", "calgo") if op.get(x)}
+    hd = dict(getattr(v, "hex_digests", None) or {})
+    if set(hd) != want_keys:
+        return {"symptom": "digest-keys-of-another-call", "missing": sorted(want_keys - set(hd)), "extra": sorted(set(hd) - want_keys)}
+    for k, val in hd.items():
+        kw = {"length": 32} if k.startswith("shake") else {}
+        if hashlib.new(k, data).hexdigest(**kw) != val:
+            return {"symptom": "digest-value-untrue-under-overlap", "algorithm": k}
+    if v.cid != hashlib.new(store_halgo, data).hexdigest() or v.obj_size != len(data):
+        return {"symptom": "cid-or-size-untrue-under-overlap"}
+    return None
+
+
+def run_conc(n, idx, sub_seed):
+    """Scheduler-controlled overlap with statement-level yield points (the shared state in question is in memory)."""
+    import hashlib
+    from .. import concengine as CE, sched as S
+    res = ShardResult()
+    rng = random.Random(sub_seed)
+    start_name, start, calls = CONC_SCENARIOS[idx]
+    scn = CE.Scenario(f"{start_name}|" + "||".join(op_shape(c) + ":" + str(c.get("add") or c.get("calgo") or c.get("algo") or "") for c in calls),
+                      start, calls, CSPEC, pids=["p1", "p2", "p3"], start_class=start_name)
+    scratch = new_scratch("c02c")
+    try:
+        runner = CE.ScenarioRunner(scn, scratch)
+        for i in range(n):
+            if i % 3 == 2:
+                ch = S.PCTChooser(rng, len(calls), 3, 1500)
+            else:
+                ch = S.RandomChooser(rng, rng.choice([0.01, 0.03, 0.08, 0.2]))
+            ob = runner.run(ch, line_level=True, with_followup=False)
+            if ob.harness_errors or ob.hang:
+                res.inconclusive.append(f"overlap run did not complete: {ob.harness_errors or ob.hang}")
+                break
+            if ob.deadlock:
+                res.foreign["deadlock"] = res.foreign.get("deadlock", 0) + 1
+                continue
+            res.evaluations += 1
+            res.count("overlapping_schedules")
+            res.count("statement_level_yield_points", ob.line_points or 0)
+            res.distinct.add(repr((scn.name, tuple(ob.points[:400]))))
+            for op, out in zip(calls, ob.outcomes):
+                if out is None:
+                    continue
+                if op["op"] == "hexdigest" and out.ok:
+                    data = runner.contents[[c for c in start if c["pid"] == op["pid"]][0]["content"]]
+                    if out.value != hashlib.new(canon_algo(op["algo"]), data).hexdigest():
+                        res.violation({"engine": "overlap", "symptom": "hexdigest-untrue-under-overlap", "calls": sorted(op_shape(c) for c in calls)},
+                                      {"engine": "C02-overlap", "scenario": idx, "schedule": list(ob.trace)[:3000], "seed": sub_seed, "run": i})
+                        continue
+                prob = check_overlapping_result(op, out, runner.contents, runner.layout.halgo, res, "overlapping_results_checked")
+                if prob:
+                    if prob["symptom"].startswith("call-failed"):
+                        res.foreign["overlap:" + prob["got"]] = res.foreign.get("overlap:" + prob["got"], 0) + 1
+                        continue
+                    res.violation({"engine": "overlap", "symptom": prob["symptom"], "calls": sorted(op_shape(c) for c in calls)},
+                                  {"engine": "C02-overlap", "scenario": idx, "problem": prob, "seed": sub_seed, "run": i,
+                                   "call": op, "schedule_head": [str(t) for t in list(ob.trace)[:60]]})
+            if i == 0 and idx == 0:
+                res.sample({"scenario": scn.name, "yield_points": ob.line_points, "outcomes": [o.brief() if o else None for o in ob.outcomes]})
+            if i % 20 == 0:
+                clear_atexit_tmp_handlers()
+    finally:
+        rmtree(scratch)
+    return res
+
+
+def run_free(n, idx, sub_seed):
+    """OS-scheduled threads on ONE instance, each storing its own pids with its own algorithms."""
+    import os
+    import sys
+    import threading
+    from ..common import call
+    res = ShardResult()
+    rng = random.Random(sub_seed)
+    scratch = new_scratch("c02f")
+    old = sys.getswitchinterval()
+    try:
+        sys.setswitchinterval(1e-5)
+        contents = {k: make_content(v["cseed"], v["size"]) for k, v in CSPEC.items()}
+        paths = {}
+        for k, d in contents.items():
+            paths[k] = os.path.join(scratch, "data_" + k)
+            with open(paths[k], "wb") as f:
+                f.write(d)
+        store = open_store(os.path.join(scratch, "store"))
+        nthreads = 6
+        nond = [a for a in ALL_ALGOS if a not in DEFAULT_ALGOS]
+        plans = []
+        for t in range(nthreads):
+            plan = []
+            for j in range(n):
+                op = _cst(f"t{t}.{j}", rng.choice(list(CSPEC)))
+                r = rng.random()
+                if r < 0.45:
+                    op["add"] = nond[(t + j) % len(nond)]
+                elif r < 0.7:
+                    op["calgo"] = nond[(t * 2 + j) % len(nond)]
+                    op["checksum"] = "ok"
+                plan.append(op)
+            plans.append(plan)
+        results = [[] for _ in plans]
+        bar = threading.Barrier(nthreads)
+
+        def body(t):
+            import hashlib
+            bar.wait()
+            for op in plans[t]:
+                data = contents[op["content"]]
+                cs = hashlib.new(op["calgo"], data).hexdigest() if op.get("calgo") else None
+                results[t].append(call(store.store_object, op["pid"], paths[op["content"]], op.get("add"), cs, op.get("calgo")))
+        ths = [threading.Thread(target=body, args=(t,), daemon=True) for t in range(nthreads)]
+        for t in ths:
+            t.start()
+        for t in ths:
+            t.join(120)
+        if any(t.is_alive() for t in ths):
+            res.inconclusive.append("free-running C02 threads did not finish within 120 s")
+            return res
+        for t in range(nthreads):
+            for op, out in zip(plans[t], results[t]):
+                res.evaluations += 1
+                prob = check_overlapping_result(op, out, contents, "sha256", res, "free_running_results_checked")
+                if prob:
+                    if prob["symptom"].startswith("call-failed"):
+                        res.foreign["free:" + prob["got"]] = res.foreign.get("free:" + prob["got"], 0) + 1
+                        continue
+                    res.violation({"engine": "free-running", "symptom": prob["symptom"]},
+                                  {"engine": "C02-free", "n": n, "idx": idx, "seed": sub_seed, "problem": prob, "call": op})
+    finally:
+        sys.setswitchinterval(old)
+        rmtree(scratch)
+        clear_atexit_tmp_handlers()
+    return res
+
+
+def run_shard(sub_seed, n, idx, extra=None):
     res = ShardResult()
     if sub_seed == "suite":
         suiteengine.run(res, ID)
         return res
+    if sub_seed == "conc":
+        return run_conc(n, idx, extra)
+    if sub_seed == "free":
+        return run_free(n, idx, extra)
     rng = random.Random(sub_seed)
     contents = {k: make_content(v["cseed"], v["size"]) for k, v in SPEC.items()}
 
@@ -152,4 +335,8 @@ def run_shard(sub_seed, n, idx):
 
 
 def replay(witness):
+    if witness.get("engine") == "C02-overlap":
+        return run_conc(max(witness.get("run", 0) + 1, 30), witness["scenario"], witness["seed"])
+    if witness.get("engine") == "C02-free":
+        return run_free(witness["n"], witness["idx"], witness["seed"])
     return seq_replay(witness, relevant)
